@@ -1114,6 +1114,7 @@ func precedesBlock(a, b *ssa.BasicBlock) bool {
 func returnsErrFrame(r *ssa.Return) bool {
 	// a result built by withErr(...) or a literal with Err set, or a non-nil error result
 	for _, v := range r.Results {
+		v = unspillResult(r, v)
 		if isErrorType(v.Type()) {
 			if cst, ok := v.(*ssa.Const); !ok || !cst.IsNil() {
 				return true
